@@ -114,6 +114,13 @@ func (s *S) Free() {
 	}
 }
 
+// Gated switches free mode off again (only sound while no process is parked or running).
+func (s *S) Gated() {
+	s.mu.Lock()
+	s.free = false
+	s.mu.Unlock()
+}
+
 func (s *S) IsFree() bool {
 	s.mu.Lock()
 	defer s.mu.Unlock()
